@@ -183,6 +183,8 @@ def hesse_work(payload):
             if nme in vm.bnd_dic:
                 b = vm.bnd_dic[nme]
                 a_, b_ = b.lower, b.upper
+                if a_ is None and b_ is None:
+                    continue  # unbounded entry (e.g. a Gaussian-constrained parameter): identity
                 if a_ is not None and b_ is not None:
                     f = lambda t: (b_ - a_) * (mp.sin(t) + 1) / 2 + a_
                 elif a_ is not None:
